@@ -17,7 +17,8 @@ def signature(case, m):
     ty, what, cls = case["ty"], m["what"], m.get("cls", "")
     if what == "accepted" and cls == "unknown_tag" and ty in ADDR_TYPES:
         return "wire:PeerAddr:unknown_family_tag_accepted"
-    if ty == "PeerAddr" and case["sh"].get("cls") == "ip6_mapped" and what in ("value", "reencode", "cross_version"):
+    if ty == "PeerAddr" and what == "value" and cls == "v4_mapped_to_v4":
+        # exactly: V6 [::ffff:a.b.c.d]:p decodes to V4 a.b.c.d:p (decided by the harness on the two real values)
         return "wire:PeerAddr:v4_mapped_ipv6_normalised"
     s = "wire:%s:%s" % (ty, what)
     if cls:
@@ -79,8 +80,12 @@ def run(tier, replay):
         obj = json.load(open(replay))
         rc = obj["case"]
         res = run_harness(wd, [rc["case"]], rc["case_seed"], rc.get("inst", 5), "replay")
+        seen = set()
         for m in res[0]["mismatches"]:
-            rep.violation(signature(rc["case"], m), rc, json.dumps(m))
+            sig = signature(rc["case"], m)
+            if sig not in seen:
+                seen.add(sig)
+                rep.violation(sig, rc, json.dumps(m))
         rep.coverage = {"states": 1, "transitions": 1, "traces_validated_against_impl": 1, "samples": [obj["signature"]]}
         return rep.finish()
 
@@ -108,7 +113,7 @@ def run(tier, replay):
         raise ToolError("harness bit-packing interpreter disagrees with PackBytes of the spec: " + p.stdout)
     npack = json.loads(p.stdout.strip().splitlines()[-1])["n"]
 
-    inst = 25 if thorough else 5
+    inst = 60 if thorough else 5
     seed = vlib.seed()
     res = run_harness(wd, cases, seed, inst, "main")
     checks = 0
@@ -137,7 +142,7 @@ def run(tier, replay):
                           "%s v%s %s: %s" % (c["ty"], c["ver"], json.dumps(c["sh"]), json.dumps(m)[:700]))
 
     # anti-vacuity (only meaningful, and only run, when the real run reported nothing)
-    nself = selftest(wd, cases) if not rep.violations and not rep.known_hit else 0
+    nself = selftest(wd, cases) if not rep.violations else 0
 
     pr = vlib.harness(["wire", "probe"], check=False)
     probes = json.loads(pr.stdout.strip().splitlines()[-1]) if pr.returncode == 0 and pr.stdout.strip() else {}
